@@ -11,8 +11,7 @@
 (***************************************************************************)
 EXTENDS DataPlaneCore, TLC, Json, SequencesExt
 
-CONSTANTS DefTTL,     \* maxForwardingHops of every node of the real mesh
-          Topos,      \* names of the topologies to export
+CONSTANTS Topos,      \* the meshes to export: pairs <<topology name, maxForwardingHops of every node of that mesh>>
           DumpFile
 
 E(a, b) == <<a, b>>
@@ -31,6 +30,13 @@ EdgePairs(name) ==
 
 Edges(name) == { {e[1], e[2]} : e \in EdgePairs(name) }
 
+\* the meshes of the two tiers: the default budget 6 (every pair well within it) and small budgets, so that pairs exactly
+\* maxForwardingHops apart and pairs one link further exist
+QuickTopos == {<<"chain2", 6>>, <<"chain4", 6>>, <<"chain6", 6>>, <<"ytree5", 6>>, <<"chain2", 1>>, <<"chain3", 2>>, <<"chain3", 1>>, <<"chain5", 4>>}
+FullTopos == {<<"chain2", 6>>, <<"chain3", 6>>, <<"chain4", 6>>, <<"chain5", 6>>, <<"chain6", 6>>, <<"star5", 6>>, <<"ytree5", 6>>, <<"tree6", 6>>, <<"broom6", 6>>,
+              <<"chain2", 1>>, <<"chain3", 2>>, <<"chain3", 1>>, <<"chain4", 3>>, <<"chain4", 2>>, <<"chain5", 4>>, <<"chain6", 5>>, <<"chain6", 4>>,
+              <<"star5", 2>>, <<"star5", 1>>, <<"ytree5", 3>>, <<"ytree5", 2>>, <<"tree6", 4>>, <<"tree6", 3>>, <<"broom6", 4>>, <<"broom6", 3>>}
+
 NodesOf(ed) == UNION ed
 NbrOf(ed, n) == { m \in NodesOf(ed) : {n, m} \in ed /\ m # n }
 
@@ -47,15 +53,20 @@ TreeTable(ed) ==
 IsTree(ed) == /\ Cardinality(ed) = Cardinality(NodesOf(ed)) - 1
               /\ \A n \in NodesOf(ed) : ReachAvoiding(ed, {n}, None) = NodesOf(ed)
 
-Budgets(d) == (0..(d + 1)) \cup {255}
+\* budgets tried for a pair at distance d on a mesh whose nodes have maxForwardingHops k.  A destination one link beyond k
+\* can be reached by a datagram with a larger budget, but its ping reply (sent with budget k) cannot come back, so those pings
+\* would only time out: for d > k the budgets stop at k.
+Budgets(d, k) == IF d <= k THEN (0..(d + 1)) \cup {255} ELSE 0..k
 
-Vec(name, src, dst) ==
+Vec(tk, src, dst) ==
+  LET name == tk[1]
+      DefTTL == tk[2] IN
   LET ed == Edges(name)
       t == TreeTable(ed)
       nn == Cardinality(NodesOf(ed))
       d == PathDist(t, src, dst, nn)
-      hs == SetToSortSeq(Budgets(d), <)
-  IN [ topo |-> name,
+      hs == SetToSortSeq(Budgets(d, DefTTL), <)
+  IN [ topo |-> name, maxhops |-> DefTTL,
        edges |-> SetToSeq(EdgePairs(name)),
        src |-> src, dst |-> dst, dist |-> d,
        path |-> PathSeq(t, src, dst, d),
@@ -64,14 +75,14 @@ Vec(name, src, dst) ==
        fates |-> [ i \in 1..Len(hs) |-> Fate(t, src, dst, hs[i]) ],
        trace |-> Traceroute(t, src, dst, DefTTL, DefTTL) ]
 
-AllVectors == UNION { { Vec(name, s, d) : s \in NodesOf(Edges(name)), d \in NodesOf(Edges(name)) } : name \in Topos }
+AllVectors == UNION { { Vec(tk, s, d) : s \in NodesOf(Edges(tk[1])), d \in NodesOf(Edges(tk[1])) } : tk \in Topos }
 
 VARIABLE vec
 Init == vec \in AllVectors
 Next == UNCHANGED vec
 Spec == Init /\ [][Next]_vec
 
-TopologiesAreTrees == \A name \in Topos : IsTree(Edges(name))
+TopologiesAreTrees == \A tk \in Topos : IsTree(Edges(tk[1]))
 
 \* reach iff distance <= hops, otherwise the expiry is reported by the node at distance h on the path
 ReachIffVec ==
@@ -82,22 +93,30 @@ ReachIffVec ==
     ELSE /\ vec.fates[i].kind = "expire" /\ vec.fates[i].at = vec.path[h + 1]
          /\ vec.pings[i] = [from |-> vec.path[h + 1], err |-> ProblemExpired]
 
-\* traceroute lists the nodes of the path in order, the source first, the destination last and error-free
+\* traceroute lists the nodes of the path in order, the source first.  When the destination is within maxForwardingHops
+\* links - INCLUDING exactly maxForwardingHops - it is the last entry and error-free; when it is one link further, the
+\* list ends with the expiry reported by the node maxForwardingHops links away.
 TracerouteVec ==
-  /\ Len(vec.trace) = vec.dist + 1
-  /\ \A i \in 1..Len(vec.trace) : vec.trace[i].from = vec.path[i]
-  /\ \A i \in 1..vec.dist : vec.trace[i].err = ProblemExpired
-  /\ vec.trace[vec.dist + 1].err = ""
+  LET k == vec.maxhops IN
+  IF vec.dist <= k
+  THEN /\ Len(vec.trace) = vec.dist + 1
+       /\ \A i \in 1..Len(vec.trace) : vec.trace[i].from = vec.path[i]
+       /\ \A i \in 1..vec.dist : vec.trace[i].err = ProblemExpired
+       /\ vec.trace[vec.dist + 1].err = ""
+  ELSE /\ Len(vec.trace) = k + 1
+       /\ \A i \in 1..(k + 1) : vec.trace[i].from = vec.path[i] /\ vec.trace[i].err = ProblemExpired
 
 PathIsAPath ==
   /\ vec.path[1] = vec.src /\ vec.path[Len(vec.path)] = vec.dst
   /\ \A i \in 1..(Len(vec.path) - 1) : {vec.path[i], vec.path[i + 1]} \in Edges(vec.topo)
 
 W_NoFarPair == vec.dist < 5
+W_NoPairAtTheLimit == ~(vec.dist = vec.maxhops /\ vec.dist >= 2)
+W_NoPairBeyondTheLimit == vec.dist <= vec.maxhops
 W_NoSelf    == vec.src # vec.dst
 
 ASSUME TopologiesAreTrees
-ASSUME \A name \in Topos : \A n \in NodesOf(Edges(name)) : \A m \in NodesOf(Edges(name)) :
-          PathDist(TreeTable(Edges(name)), n, m, 6) <= DefTTL          \* all pairs within the node default budget
+ASSUME \A tk \in Topos : \A n \in NodesOf(Edges(tk[1])) : \A m \in NodesOf(Edges(tk[1])) :
+          PathDist(TreeTable(Edges(tk[1])), n, m, 6) <= tk[2] + 1      \* every pair within, at, or one link beyond the node default budget
 ASSUME DumpFile = "" \/ ndJsonSerialize(DumpFile, SetToSeq(AllVectors))
 =============================================================================
